@@ -3,5 +3,6 @@ CONSTANTS
   Pairs = "some"
   MaxAbsent = 2
   GroupProduct = FALSE
+  OddAll = FALSE
 INVARIANTS Theorems
 CHECK_DEADLOCK FALSE
